@@ -17,7 +17,8 @@ from rustcut import AnchorLost
 from verus_run import verus, locate, obligation_id
 
 C01_KEYS = ('lp(', 'ext(', 'extd(', 'wf()', 'wf_ev()', 'depth(', 'open_at(', 'handed(', 'mark_ok(', 'is_open(', 'events',
-            'tokens_raw', 'src@', 'n_adv', 'nested', '.index', 'tokens@ ==')
+            'tokens_raw', 'src@', 'n_adv', 'nested', '.index', 'tokens@ ==', 'rooted(', 'inroot(', 'btoks(', 'bdepth(', 'binside(',
+            'single_root(', 'is_trivia_spec(', 'n_real(', 'push_toks(', 'raw_prefix(', 'bt_pre(', 'builder@')
 C02_KEYS = ('fuel', 'prog(', '.pos', 'cur()', 'kidx(', 'rem()', 'is Some', 'is None', 'has(', '_spec(', 'MAX_DEPTH', '.depth',
             'seq_has', 'bit(', 'handed(', 'wf()', 'wf_tok()', 'kind !=', 'tokens.len()', 'tokens@.len()')
 C02_MSGS = ('could not prove termination', 'decreases not satisfied', 'possible arithmetic', 'possible bit shift',
@@ -41,6 +42,8 @@ def classify(f):
         props.add('C01')
     if any(k in t for k in C02_KEYS):
         props.add('C02')
+    if 'closure' in f['message']:
+        props.add('C01')   # post-/precondition of a closure: only Parser::build_tree has contracted closures
     if not props:
         props = {'C01', 'C02'}
     return props
@@ -69,13 +72,16 @@ def scan_assumptions(text):
     return sorted(set(found))
 
 
-def build(repo, outdir, with_contracts=True, inferred=None):
+def build(repo, outdir, with_contracts=True, inferred=None, with_bt=True):
     ex = extract_parser.extract(repo)
-    prelude = open(os.path.join(VERIF, 'contracts/parser_prelude.rs')).read()
+    prelude = open(os.path.join(VERIF, 'contracts/parser_prelude.rs')).read() + open(os.path.join(VERIF, 'contracts/parser_prelude_bt.rs')).read()
     stubs = open(os.path.join(VERIF, 'contracts/parser_stubs.rs')).read()
     top = open(os.path.join(VERIF, 'contracts/parser_top.rs')).read()
+    if with_bt:
+        top += open(os.path.join(VERIF, 'contracts/parser_top_bt.rs')).read()
     fns, loops = weave.parse_spec(open(os.path.join(VERIF, 'contracts/parser.spec')).read())
-    text, linemap, info = weave.assemble(ex, prelude, fns, loops, stubs, top, inferred)
+    text, linemap, info = weave.assemble(ex, prelude, fns, loops, stubs, top, inferred, with_bt)
+    info['tree_builder_in_unit'] = with_bt
     os.makedirs(outdir, exist_ok=True)
     unit = os.path.join(outdir, 'unit.rs')
     open(unit, 'w').write(text)
@@ -90,9 +96,23 @@ def verify_with_inference(repo, outdir):
     The last run - in which every remaining clause of an inferred contract is proved - is the result."""
     inferred = None
     log = []
+    with_bt, bt_note = True, None
     for rnd in range(14):
-        ex, fns, loops, text, linemap, info, unit = build(repo, outdir, True, inferred)
-        res = verus(unit, multiple_errors=30 if inferred is not None else 10)
+        try:
+            ex, fns, loops, text, linemap, info, unit = build(repo, outdir, True, inferred, with_bt)
+            if with_bt and ex.get('build_tree_unextractable'):
+                raise Undecided('Parser::build_tree is not of the shape the rewrites R11/R12 expect: %s' % ex['build_tree_unextractable'])
+            res = verus(unit, multiple_errors=30 if inferred is not None else 10)
+        except (Undecided, AnchorLost) as e:
+            if not with_bt:
+                raise
+            # the tree builder's text is outside what the extractor / Verus can take: verify the grammar unit without it;
+            # Parser::build_tree is then covered by the bounded Kani harnesses only (and reported so)
+            with_bt, bt_note = False, str(e)[:600]
+            log.append('tree builder left out of the Verus unit: %s' % bt_note)
+            ex, fns, loops, text, linemap, info, unit = build(repo, outdir, True, inferred, with_bt)
+            res = verus(unit, multiple_errors=30 if inferred is not None else 10)
+        info['tree_builder_fallback_reason'] = bt_note
         if not info['defaulted']:
             break
         if inferred is None:
